@@ -81,9 +81,24 @@ pub fn child_main() -> ! {
         None => std::process::exit(97),
     };
     if cfg.order == Order::ParentFirst {
+        // Wait until the parent has written what it is going to write before we look: the whole
+        // input, a full pipe, or - for a driver that sends its text in pieces - whatever stopped
+        // growing a while ago (the parent is done or blocked on us).
         let want = cfg.expected_len.min(65536);
         let start = std::time::Instant::now();
-        while fionread(0) < want && start.elapsed() < std::time::Duration::from_secs(3) {
+        let mut seen = 0usize;
+        let mut last_growth = start;
+        loop {
+            let now_there = fionread(0);
+            if now_there >= want || start.elapsed() >= std::time::Duration::from_secs(3) {
+                break;
+            }
+            if now_there > seen {
+                seen = now_there;
+                last_growth = std::time::Instant::now();
+            } else if last_growth.elapsed() >= std::time::Duration::from_millis(if seen > 0 { 120 } else { 400 }) {
+                break;
+            }
             std::thread::sleep(std::time::Duration::from_millis(1));
         }
     }
@@ -389,7 +404,9 @@ pub fn case_main() -> i32 {
     verif_hooks::install(Some(Arc::new(KernelBackend { order: sc.order }) as Arc<dyn Backend>));
     // A real hang must not take the harness with it.
     unsafe {
-        libc::alarm(20);
+        // generous: a driver that formats in pieces starts dozens of real processes per call,
+        // and the machine may be busy; only a real hang gets this far
+        libc::alarm(90);
     }
     // earlier calls of the sequence, judged like the last one (the first failure is the verdict)
     let mut first_failure: Option<String> = None;
@@ -522,6 +539,7 @@ fn model_class(sc: &Scenario) -> String {
     let case = Case {
         job: sc.job.clone(),
         proc: model_plan(sc),
+        env: vec![],
         later: vec![],
         earlier_calls: sc
             .earlier
